@@ -112,3 +112,17 @@ func ghost_rvIndex(v reflect.Value, i int) reflect.Value { return v.Index(i) }
 func ghost_recValid(v reflect.Value) bool {
 	return tryRecursiveValidate(v, makeOptions(nil), nil) == nil
 }
+
+func ghost_rvSlice(v reflect.Value, i, j int) reflect.Value { return v.Slice(i, j) }
+func ghost_holdsCopy(dst, src reflect.Value) bool {
+	n := dst.Len()
+	if src.Len() < n {
+		n = src.Len()
+	}
+	for k := 0; k < n; k++ {
+		if !reflect.DeepEqual(dst.Index(k).Interface(), src.Index(k).Interface()) {
+			return false
+		}
+	}
+	return true
+}
